@@ -75,9 +75,13 @@ pub struct WorldGen<'a, 'c> {
     pub labels: BTreeSet<&'static str>,
     /// probability (of 256) of a fault at a node
     pub fault_p: u32,
-    /// only correct outcomes, never null (C33-style serving is done elsewhere; this is for C27)
+    /// maximum list length
     pub max_len: usize,
+    /// once this many positions are resolved (or objects handed out), lists are empty and
+    /// composite positions null
     pub max_positions: usize,
+    /// objects handed out so far (capped by `max_positions` as well: one field may return many)
+    pub objects: usize,
 }
 
 impl<'a, 'c> WorldGen<'a, 'c> {
@@ -89,7 +93,7 @@ impl<'a, 'c> WorldGen<'a, 'c> {
             2 => 28,
             _ => 70,
         };
-        WorldGen { c, schema, world: World::default(), labels: BTreeSet::new(), fault_p, max_len: 3, max_positions: 80 }
+        WorldGen { c, schema, world: World::default(), labels: BTreeSet::new(), fault_p, max_len: 3, max_positions: 80, objects: 0 }
     }
 
     fn fault(&mut self) -> bool {
@@ -292,7 +296,7 @@ impl<'a, 'c> WorldGen<'a, 'c> {
         let non_null = ty.is_non_null();
         let t = ty.nullable();
         // size cap: beyond `max_positions` resolved positions nothing opens new positions
-        if self.world.table.len() >= self.max_positions && !matches!(t, Type::Named(n) if self.schema.is_leaf(n)) {
+        if (self.world.table.len() >= self.max_positions || self.objects >= self.max_positions) && !matches!(t, Type::Named(n) if self.schema.is_leaf(n)) {
             self.labels.insert("w:capped");
             return match t {
                 Type::List(_) => Outcome::List(vec![]),
@@ -338,6 +342,7 @@ impl<'a, 'c> WorldGen<'a, 'c> {
                         if possible.len() > 1 {
                             self.labels.insert("w:abstract-choice");
                         }
+                        self.objects += 1;
                         Outcome::Object(possible[self.c.choose(possible.len())].clone())
                     }
                 }
